@@ -96,6 +96,14 @@ theorem delete_safe (pre mid post : List Event) (h : flushOK (pre ++ mid ++ post
   obtain ⟨g, hg, hm, hdg⟩ := cover_run hx2 hcx.1 hf hmax hd'
   exact ⟨g, hg, hm, by rw [← hfsy]; exact hdg⟩
 
+/-- Why a superseding file keeps restore chains alive: the planner's contiguity relation
+    (`min ≤ cur+1 ∧ max > cur`, replica.go CalcRestorePlan / ltx.Compactor) is preserved when a chain
+    member is replaced by a file whose range contains it. -/
+theorem supersedes_extends {g f : Path} (h : Supersedes g f) {cur : Nat}
+    (hf : f.min ≤ cur + 1 ∧ cur < f.max) : g.min ≤ cur + 1 ∧ cur < g.max := by
+  obtain ⟨_, h1, h2, _⟩ := h
+  omega
+
 /-- **wellOrdered_flushOK.** A static step list that is `WellOrdered` (symbolic scanner over the two
     roles) yields a trace the acceptor accepts. Proved by simulation (Lemmas/FsSym.lean). -/
 theorem wellOrdered_flushOK (p : Protocol) (h : WellOrdered p) : flushOK (traceOf p) = true :=
